@@ -133,9 +133,11 @@ def memo_invalidation(ctx):
             if is_name(call.func, 'get_handler') and call.args:
                 n_sites += 1
                 ctx.ob(not [k for k in call.keywords if k.arg == 'raise_exc'], u, 'lookup raises on failure: %s' % src(call, 70), node=call)
-    if n_sites < 9:
-        raise AnalysisError('C13.1: only %d get_handler call sites found (floor 9)' % n_sites)
-    ctx.floor(11)
+    # nine sites on the confirmed tree; two of them are verbatim copies of grouping.target_iter
+    # (list handler, Iter) that a maintainer may merge: the floor allows that, not less
+    if n_sites < 7:
+        raise AnalysisError('C13.1: only %d get_handler call sites found (floor 7)' % n_sites)
+    ctx.floor(9)
 
 
 @rule('C13.2')
@@ -170,6 +172,21 @@ def memo_key(ctx):
     rets = [n for n in u.own_nodes() if isinstance(n, ast.Return)]
     def is_entry(r):
         v = r.value
+        if is_name(v):
+            # a local that is the memo entry on every path: read back from the memo
+            # (``ret = self._type_cache[key]``), or computed and stored under the key before the
+            # return (every path from that definition to the return passes the one memo store)
+            ds = cfg.reaching_defs(cfg.node_of(r), v.id)
+
+            def from_memo(d):
+                return isinstance(d, ast.Subscript) and isinstance(d.value, ast.Attribute) and d.value.attr == '_type_cache' \
+                    and is_name(d.slice, kv)
+            if ds and len(st) == 1 and is_name(st[0].value, v.id):
+                sn, rn = cfg.node_of(st[0]), cfg.node_of(r)
+                if all(from_memo(d) or cfg.must_pass(dn, {rn}, {sn}, labels=lambda l: l != 'exc')[0] for dn, d in ds):
+                    return True
+            elif ds and all(from_memo(d) for _, d in ds):
+                return True
         if isinstance(v, ast.Subscript) and isinstance(v.value, ast.Attribute) and v.value.attr == '_type_cache' \
                 and is_name(v.slice, kv):
             return True
@@ -395,6 +412,18 @@ def tree_structure(ctx):
                 pol = polarity(v.test, '%s is None' % subv)
                 a, b_ = (v.body, v.orelse) if pol == 'true' else (v.orelse, v.body)
                 ok = pol is not None and is_name(a, ct) and is_name(b_, subv)
+            elif is_name(lrets[0].ast.value, subv):
+                # the subtree's answer, replaced by the matching type when there is none:
+                # ``r = walk(sub); if r is None: r = type; return r``
+                ds = gcfg.reaching_defs(lrets[0], subv)
+                fall = [dn for dn, dv in ds if isinstance(dv, ast.AST) and is_name(dv, ct)]
+                keep = [dn for dn, dv in ds if dv is rec[0]]
+                if len(ds) == 2 and len(fall) == 1 and len(keep) == 1:
+                    for t in gcfg.nodes:
+                        if t.kind == 'test':
+                            pol = polarity(t.ast, '%s is None' % subv)
+                            if pol and fall[0] in exclusive(gcfg, t, pol) and gcfg.dominates(keep[0], t):
+                                ok = True
         elif subv and len(lrets) == 2:
             for t in gcfg.nodes:
                 if t.kind != 'test':
@@ -551,6 +580,13 @@ def register_stores(ctx):
         okh = bool(defs) and all(isinstance(v, tuple) and v and v[0] == 'param' for _, v in defs)
     ctx.ob(okh, gu, 'Glommer.register forwards the handlers it was given, unfiltered: %s' % [norm(x) for x in fw],
            '' if okh else 'a handler of False / None is a registration too; filtered, autodiscovery replaces it')
+    # an op declared without saying otherwise covers subclasses too (exact defaults to False)
+    ou = ctx.unit('core.TargetRegistry.register_op')
+    a = ou.node.args
+    dfl = dict(zip([x.arg for x in a.args][len(a.args) - len(a.defaults):], a.defaults))
+    d = dfl.get('exact')
+    ctx.ob(isinstance(d, ast.Constant) and d.value is False, ou, 'register_op(.., exact=False) by default: %s' % (norm(d) if d is not None else None),
+           '' if isinstance(d, ast.Constant) and d.value is False else 'ops declared without the flag would skip the subclass tree')
     # type check
     first = next((n for n in u.node.body if isinstance(n, ast.If)), None)
     ctx.ob(isinstance(first, ast.If) and norm(first.test) == 'not isinstance(%s, type)' % ttype, u, 'only types can be registered')
@@ -620,5 +656,56 @@ def nested_evaluation_keeps_the_registry(ctx):
                 n += 1
                 ctx.ob(False, u, 'no public entry point is called from inside an evaluation: %s' % norm(c)[:80],
                        '%s starts a new top-level call: default registry, fresh scope (the registry of the running call is lost)' % q, node=c)
-    ctx.ob(n == 0, 'package', 'nested evaluations go through scope[glom] (%d evaluation functions examined, %d entry-point calls)' % (len(reach), n))
+    # ... nor handed on as a callable (partial(glom, spec=..) as a key function is the same thing)
+    units = set(reach)
+    for k in spec_classes:
+        units.update(k.methods.values())
+    for u in sorted(units, key=lambda x: x.qualname):
+        if u.qualname in PUBLIC_ENTRIES or u.qualname == 'core.Spec.glom':
+            continue
+        for x in u.own_nodes():
+            if not (isinstance(x, ast.Name) and isinstance(x.ctx, ast.Load)):
+                continue
+            if p.global_qualname(u, x) not in PUBLIC_ENTRIES:
+                continue
+            par = parent(x)
+            if isinstance(par, ast.Call) and par.func is x:
+                if u in reach:
+                    continue        # reported above
+                n += 1
+                ctx.ob(False, u, 'no public entry point is called from a spec\'s own code: %s' % norm(par)[:80],
+                       'starts a new top-level call (default registry, fresh scope, errors wrapped early)', node=par)
+                continue
+            if isinstance(par, ast.Subscript) and par.slice is x:
+                continue            # scope[glom]: the key under which the evaluator travels
+            if isinstance(par, ast.Call) and isinstance(par.func, ast.Attribute) and par.func.attr == 'get' and par.args and par.args[0] is x:
+                continue
+            if isinstance(par, ast.Dict) and x in par.keys:
+                continue
+            n += 1
+            ctx.ob(False, u, 'no public entry point is handed on as a callable from a spec\'s own code: %s' % norm(par)[:80],
+                   'whoever calls it starts a new top-level call: default registry, fresh scope, errors wrapped before the enclosing call sees them', node=x)
+    ctx.ob(n == 0, 'package', 'nested evaluations go through scope[glom] (%d evaluation functions examined, %d entry-point uses)' % (len(units), n))
     ctx.floor(1)
+
+
+@rule('C13.17')
+def miss_is_reported_on_every_lookup(ctx):
+    """get_handler(.., raise_exc=True) raises UnregisteredTarget for a type without a handler --
+    on every lookup, also when the miss is answered from the memo (an earlier raise_exc=False
+    lookup memoises False; returning that False to a caller that asked for an exception makes
+    the caller call False(..))"""
+    u = ctx.unit('core.TargetRegistry.get_handler')
+    cfg = ctx.cfg(u)
+    flag = 'raise_exc'
+    ctx.require(flag in u.params, 'get_handler: raise_exc parameter not found')
+    tests = {t for t in cfg.nodes if t.kind == 'test' and any(is_name(x, flag) for x in ast.walk(t.ast))}
+    rets = {n for n in cfg.nodes if n.kind == 'stmt' and isinstance(n.ast, ast.Return)}
+    ctx.require(tests and rets, 'get_handler: raise_exc test / returns not found')
+    ok, wit = cfg.must_pass(cfg.entry, rets, tests, labels=lambda l: l != 'exc')
+    ctx.ob(ok, u, 'every lookup decides whether to raise for a missing handler before it returns',
+           '' if ok else 'a memo hit returns without consulting raise_exc: %s' % fmt_witness(cfg, wit))
+    raises = [n for n in cfg.nodes if n.kind == 'stmt' and isinstance(n.ast, ast.Raise) and n.ast.exc is not None
+              and isinstance(n.ast.exc, ast.Call) and callee_qual(ctx.program, u, n.ast.exc) == 'core.UnregisteredTarget']
+    ctx.ob(len(raises) >= 1, u, 'a missing handler is reported as UnregisteredTarget')
+    ctx.floor(2)
